@@ -70,7 +70,7 @@ func uninterrupted(dir string, h appdrv.History) ([]appdrv.Resp, *app.ShutterApp
 	return rs, a, saves, heights
 }
 
-func restart(run *vh.Run, h appdrv.History, cut int, file string, wantHeight int64, base []appdrv.Resp, baseFinal string) {
+func restart(run *vh.Run, h appdrv.History, cut int, file string, wantHeight int64, base []appdrv.Resp, baseFinal, baseDeep string) {
 	rc := restartCase{History: h, Cut: cut}
 	bad := func(key, what string, obs any) {
 		run.Violate(vh.Violation{Key: key, What: what, Case: rc, Observed: obs})
@@ -103,6 +103,8 @@ func restart(run *vh.Run, h appdrv.History, cut int, file string, wantHeight int
 	}
 	if appdrv.StateString(a, nil) != baseFinal {
 		bad("C13:restarted-node-state-differs", fmt.Sprintf("after a restart from the save at call %d the final state differs", cut), nil)
+	} else if d := appdrv.DeepState(a, "Gobpath", "LastSaved"); d != baseDeep {
+		bad("C13:restarted-node-state-differs", fmt.Sprintf("after a restart from the save at call %d the final state differs (field-by-field comparison)", cut), []string{baseDeep, d})
 	}
 	id := run.NextID()
 	ev := 0
@@ -118,6 +120,7 @@ func restart(run *vh.Run, h appdrv.History, cut int, file string, wantHeight int
 func doHistory(run *vh.Run, dir string, h appdrv.History, cuts int) {
 	base, a, saves, heights := uninterrupted(dir, h)
 	final := appdrv.StateString(a, nil)
+	finalDeep := appdrv.DeepState(a, "Gobpath", "LastSaved")
 	// a node that never writes a state file answers the same calls the same way
 	if plain, pa, err := appdrv.RunHistory(h); err == nil {
 		for i := range plain {
@@ -152,7 +155,7 @@ func doHistory(run *vh.Run, dir string, h appdrv.History, cuts int) {
 		points = sel
 	}
 	for _, k := range points {
-		restart(run, h, k, saves[k], heights[k], base, final)
+		restart(run, h, k, saves[k], heights[k], base, final, finalDeep)
 	}
 	for _, p := range saves {
 		os.Remove(p)
